@@ -287,6 +287,26 @@ func runC18(c *Ctx) {
 		}
 		el := LockAtEntry(fn)
 		c.Check(ok && el != nil && el.Deferred, "C18.4-service-delegation", FuncName(fn)+"|delegates to last."+name, p.Pos(fn.Pos()), "delegates to the same query of the current nodeConf with its own argument, under the read lock")
+		// the wrapper adds no verdict of its own: every value it returns is the result of that
+		// delegated call (a shortcut answering from another table, e.g. the configured node types,
+		// can disagree with the ring every other participant consults)
+		isDelegate := func(cc *ssa.CallCommon) bool {
+			o := CalleeObj(cc)
+			return o != nil && o.Name() == name && IsLoadOfField(cc.Value, lastF)
+		}
+		bad := ""
+		for _, ri := range Returns(fn) {
+			ret := ri.(*ssa.Return)
+			if ret.Block() == fn.Recover {
+				continue
+			}
+			for _, rv := range ret.Results {
+				if !valueIsResultOf(rv, isDelegate) {
+					bad = "a value returned at " + p.Pos(InstrPos(ret)) + " is not the result of last." + name + "(spaceId)"
+				}
+			}
+		}
+		c.Check(bad == "", "C18.4-service-delegation", FuncName(fn)+"|returns only the delegate's answer", p.Pos(fn.Pos()), orDefault(bad, "every returned value is the answer of the current nodeConf"))
 	}
 }
 
